@@ -1,7 +1,7 @@
 /-
 Line-protocol codec and history runner for the MemIndex model (C15 and C16 drivers). Core-only.
 
-payload ::= (env (cols n) (pk c*) (idx ((c*) uniq:0|1)*) (np n) (pm ((value*) p)*)) (stmts stmt*)
+payload ::= (env (cols n) (pk c*) (idx ((c*) uniq:0|1 [(prefixlen*)])*) (np n) (pm ((value*) p)*)) (stmts stmt*)
 stmt    ::= (eof|err|ign op*)
 op      ::= (i row) | (d row) | (u row row) | (x)
 value   ::= n | i<int> | x<hex>          row ::= (value*)
@@ -18,6 +18,7 @@ open Gms.Proto Gms.MemTable Gms.MemTableProto Gms.MemIndex
 
 def pIdx : Sexp → Option IdxDef
   | .list [cs, .atom u] => do pure { cols := (← pNats cs), unique := u == "1" }
+  | .list [cs, .atom u, ps] => do pure { cols := (← pNats cs), unique := u == "1", pfx := (← pNats ps) }
   | _ => none
 
 def pPm : Sexp → Option (List Val × Nat)
@@ -115,12 +116,14 @@ def handle (p : List Sexp) : String :=
 
 /-! ### C16: histories of statements and DDL steps
 
-payload ::= (env …) (steps step*)      step ::= (s stmt) | (trunc) | (mkidx (c*) uniq) | (rmidx j) -/
+payload ::= (env …) (steps step*)      step ::= (s stmt) | (trunc) | (mkidx (c*) uniq [(prefixlen*)]) | (rmidx j) -/
 
 def pStep : Sexp → Option Step
   | .list [.atom "s", st] => do pure (.stmt (← pStmt st))
   | .list [.atom "trunc"] => some .trunc
   | .list [.atom "mkidx", cs, .atom u] => do pure (.mkidx { cols := (← pNats cs), unique := u == "1" })
+  | .list [.atom "mkidx", cs, .atom u, ps] => do
+    pure (.mkidx { cols := (← pNats cs), unique := u == "1", pfx := (← pNats ps) })
   | .list [.atom "rmidx", j] => do pure (.rmidx (← j.nat?))
   | _ => none
 
